@@ -154,7 +154,8 @@ def run_job(cfile, job, workdir):
     log = base + ".log"
     open(log, "w").close()
     a, b = base + ".a.gb", base + ".b.gb"
-    cc = ["goto-cc", "--function", job.harness, "-I", PRELUDE, "-I", SPECS, "-DVERIF_CBMC"] + ["-D" + d for d in job.defines] + [cfile, "-o", a]
+    cc = ["goto-cc", "--function", job.harness, "-I", PRELUDE, "-I", SPECS, "-DVERIF_CBMC"] + (["-DVERIF_SEARCH"] if job.kind == "search" else []) + \
+         ["-D" + d for d in job.defines] + [cfile, "-o", a]
     r.cmds.append(" ".join(cc))
     rc, out, err, _ = _run(cc, 120, workdir, log)
     if rc != 0:
